@@ -185,6 +185,10 @@ package upstream
 //@   requires ul.connection != nil
 //@   modifies ul.session, ul.connection, G_closes(ul.connection), G_isclosed(ul.connection)
 //@   callsite smux.Client#1 (config *smux.Config) require config.MaxReceiveBuffer >= 4194304                    :shared_receive_budget_at_least_4MiB
+// C02: both ends keep the multiplexer's keep-alive parameters (a ping every 10 s, give up after 30 s): an end that
+// gives up sooner than the other pings tears the whole session down (all logical connections at once) whenever
+// the peer merely has nothing to send
+//@   callsite smux.Client#1 (config *smux.Config) require config.KeepAliveInterval == 10000000000 && config.KeepAliveTimeout == 30000000000      :keep_alive_parameters_agree_on_both_ends
 //@   ensures err == nil ==> ul.session != nil && ul.connection == old(ul.connection)                 :session_over_the_connected_upstream
 //@   ensures err != nil ==> ul.connection == nil                                                      :no_half_open_state
 
